@@ -13,7 +13,7 @@
 From Coq Require Import Permutation.
 From Eino Require Import Base.Util Model.Graph Model.Chain Model.ChainSpec Model.ChainCompile Model.PregelOpts Model.PregelHyps Proofs.Graph
   Proofs.PregelBase Proofs.Pregel Proofs.PregelRun Proofs.PregelNest Proofs.PregelTop
-  Proofs.PregelChainLower Proofs.PregelChain Proofs.PregelOrder Proofs.PregelChainCompile Proofs.PregelOpts Proofs.PregelHyps.
+  Proofs.PregelChainLower Proofs.PregelChain Proofs.PregelOrder Proofs.PregelChainCompile Proofs.PregelOpts Proofs.PregelHyps Proofs.PregelStream.
 Open Scope N_scope.
 
 (* ---------- default step limit = number of nodes + 10 (graph.compile) ---------- *)
@@ -396,6 +396,53 @@ Theorem corr_chain_ties_agree :
 Proof. exact chain_case_run_is_eval. Qed.
 Print Assumptions corr_chain_ties_agree.
 
+(* ---------- the stream form of a run (Proofs/PregelStream.v) ---------- *)
+(* The engine is parametric in what flows and in the operations on it. For two instances related by an
+   abstraction function phi (V1 = what flows in stream mode, V2 = the values, phi = concatenation) such that sizes
+   (what conditions read), output-key wrapping, the field-mapping normalisation and the node bodies commute with
+   phi, and such that a fan-in that succeeds on the values succeeds on the streams with the corresponding result
+   (a failing value fan-in has a class in merr; a stream fan-in may succeed where the value fan-in fails:
+   duplicated keys, F-C04): for EVERY forest of any-predecessor graphs, every nesting, every input and state,
+   either the value run fails with a fan-in error (somewhere, possibly next to other failures) or the stream run
+   IS the value run — result under phi, same failures, same execution log (inputs under phi), same final state.
+   The chunk-level laws themselves (concatenation vs merge / copy / key wrappers of eino's streams) are C04's
+   theorems concat_merge, concat_copy, concat_withKey; Corr/C01.v compares the Stream / Transform entries with
+   the value model under exactly this carve-out ([stream_incomparable] = [diverged] with merr = dup / type). *)
+Theorem stream_form_agrees :
+  forall (V1 V2 St : Type) (ops1 : vops V1) (ops2 : vops V2) (phi : V1 -> V2) (merr : N -> bool),
+    (forall a, v_size ops1 a = v_size ops2 (phi a)) ->
+    (forall k a, phi (v_wrap ops1 k a) = v_wrap ops2 k (phi a)) ->
+    (forall a, phi (v_norm ops1 a) = v_norm ops2 (phi a)) ->
+    phi (v_zero ops1) = v_zero ops2 ->
+    (forall l : list (key * V1),
+       match v_merge ops2 (amap phi l) with
+       | Ok b => exists a, v_merge ops1 l = Ok a /\ phi a = b
+       | Err e => merr e = true
+       | Panic => False
+       end) ->
+    forall (exec1 : St -> path -> V1 -> res V1 * St) (exec2 : St -> path -> V2 -> res V2 * St) sched,
+      (forall s p a, exec2 s p (phi a) = (rvmap V1 V2 phi (fst (exec1 s p a)), snd (exec1 s p a))) ->
+      forall fuel F, (forall g, In g F -> pregel_graph g) ->
+      forall p g a s, pregel_graph g ->
+        let r2 := run_nest V2 St ops2 exec2 sched fuel F p g (phi a) s in
+        let r1 := run_nest V1 St ops1 exec1 sched fuel F p g a s in
+        diverged V2 merr (fst r2) \/ (omap V1 V2 phi (fst r1) = fst r2 /\ snd r1 = snd r2).
+Proof. exact run_nest_stream_sim. Qed.
+Print Assumptions stream_form_agrees.
+
+(* an instance (the hypotheses are satisfiable, with the harness lambdas): the engine whose fan-in does NOT check
+   for duplicated keys (a later sender overwrites, non-maps are ignored — what distinguishes a stream fan-in at
+   the level of the engine) runs every forest of any-predecessor graphs exactly as the checked engine that
+   Corr/C01.v evaluates, unless the checked run fails at a fan-in *)
+Theorem unchecked_fanin_engine_agrees :
+  forall fails fuel F p g x,
+    (forall g', In g' F -> pregel_graph g') -> pregel_graph g ->
+    let r2 := run_nest value unit tree_ops (tree_exec fails) sched_first fuel F p g x tt in
+    let r1 := run_nest value unit lenient_ops (tree_exec fails) sched_first fuel F p g x tt in
+    diverged value tree_merr (fst r2) \/ (omap value value (fun v => v) (fst r1) = fst r2 /\ snd r1 = snd r2).
+Proof. exact lenient_engine_agrees. Qed.
+Print Assumptions unchecked_fanin_engine_agrees.
+
 (* the hypotheses of the theorems above in decidable form ([hyps_ok], Model/PregelHyps.v), which Corr/C01.v
    evaluates on the lowered forest of every compared case: they imply the propositional ones *)
 Theorem corr_hypotheses_hold :
@@ -438,6 +485,23 @@ Example ex_cycle_runtime_limit :
   exists l, tree_run [] (lower_forest (with_rtmax 3 [GGraph (ex_cycle 0)])) (VAtom 1) = Fail [mkerr eMaxSteps] l
             /\ own_entries value [] l = 4%nat.
 Proof. eexists. split; vm_compute; reflexivity. Qed.
+
+(* both disjuncts of stream_form_agrees occur: the cyclic graph runs alike with the unchecked fan-in; a fan-in
+   of two pass-through nodes carrying the same key diverges (checked: duplicated key, unchecked: a result) *)
+Definition ex_dup : graph :=
+  {| g_nodes := [ex_node kSTART [2; 3] [];
+                 {| n_key := 2; n_kind := KPass; n_outkey := None; n_dsucc := [kEND]; n_csucc := [kEND]; n_dmap := []; n_branches := [] |};
+                 {| n_key := 3; n_kind := KPass; n_outkey := None; n_dsucc := [kEND]; n_csucc := [kEND]; n_dmap := []; n_branches := [] |}];
+     g_mode := Pregel; g_eager := false; g_max := 0 |}.
+Example ex_stream_both_cases :
+  (fst (run_nest value unit lenient_ops (tree_exec []) sched_first 2 [ex_cycle 0] [] (ex_cycle 0) (VAtom 1) tt)
+   = tree_run [] [ex_cycle 0] (VAtom 1)) /\
+  diverged value tree_merr (tree_run [] [ex_dup] (VMap [(900, VAtom 1)])) /\
+  (exists v l, fst (run_nest value unit lenient_ops (tree_exec []) sched_first 2 [ex_dup] [] ex_dup (VMap [(900, VAtom 1)]) tt) = Done v l).
+Proof.
+  split; [vm_compute; reflexivity|]. split; [vm_compute; reflexivity|].
+  eexists. eexists. vm_compute. reflexivity.
+Qed.
 
 (* a reachable state and a continuing step exist (hypotheses of pregel_frontier / pregel_consumed_once) *)
 Example ex_reachable_continue :
